@@ -679,6 +679,102 @@ func mutate(rng *rand.Rand, pkt []byte) [][]byte {
 	return out
 }
 
+// structural derives directed decoder inputs from the layer structure of a valid packet: every declared
+// length one below / at / one above what the data holds, and cuts around every structural boundary.
+func structural(pkt []byte, dec []decLayer) [][]byte {
+	var out [][]byte
+	n := len(pkt)
+	cp := func() []byte { return append([]byte(nil), pkt...) }
+	set := func(off int, v int) {
+		if off >= 0 && off < n && v >= 0 && v <= 255 {
+			b := cp()
+			b[off] = byte(v)
+			out = append(out, b)
+		}
+	}
+	cut := func(at int) {
+		for _, d := range []int{-1, 0, 1} {
+			if at+d >= 0 && at+d <= n {
+				out = append(out, cp()[:at+d])
+			}
+		}
+	}
+	for _, l := range dec {
+		if !l.acc {
+			break
+		}
+		start := n - len(l.in)
+		end := start + l.contents
+		cut(end)
+		switch l.name {
+		case "scion":
+			al := 16 + 4*(int(pkt[9]>>4&3)+1) + 4*(int(pkt[9]&3)+1)
+			cut(12)
+			cut(12 + al)
+			po := 12 + al
+			if pkt[8] == 3 {
+				cut(po + 16)
+				po += 16
+			}
+			if pkt[8] == 1 || pkt[8] == 3 {
+				cut(po + 4)
+				meta := binary.BigEndian.Uint32(pkt[po:])
+				for seg := 0; seg < 3; seg++ { // each segment length one up / one down
+					sh := uint(12 - 6*seg)
+					cur := int(meta >> sh & 0x3f)
+					for _, d := range []int{-1, 1} {
+						if cur+d >= 0 && cur+d <= 63 {
+							b := cp()
+							binary.BigEndian.PutUint32(b[po:], meta&^(0x3f<<sh)|uint32(cur+d)<<sh)
+							out = append(out, b)
+						}
+					}
+				}
+			}
+			for _, d := range []int{-1, 1} { // one address length code up / down
+				set(9, int(pkt[9])+d)
+				set(9, int(pkt[9])+16*d)
+			}
+		case "hbh", "e2e":
+			set(start+1, int(pkt[start+1])-1) // ExtLen
+			set(start+1, int(pkt[start+1])+1)
+			set(start+1, (n-start)/4)   // just beyond the data
+			set(start+1, (n-start)/4-1) // exactly the data
+			for off := start + 2; off < end; {
+				if pkt[off] == 0 {
+					off++
+					continue
+				}
+				cut(off + 1)
+				if off+1 >= end {
+					break
+				}
+				fit := end - off - 2 // the data length with which the option ends exactly at the end
+				for _, d := range []int{-2, -1, 0, 1, 2} {
+					set(off+1, fit+d)
+				}
+				set(off, 0) // turn the option into Pad1
+				off += 2 + int(pkt[off+1])
+			}
+		case "udp":
+			for _, v := range []int{0, 7, 8, 9, n - start - 1, n - start, n - start + 1} {
+				if v >= 0 && v < 65536 && start+6 <= n {
+					b := cp()
+					binary.BigEndian.PutUint16(b[start+4:], uint16(v))
+					out = append(out, b)
+				}
+			}
+			cut(start + 8)
+		case "scmp":
+			cut(start + 4)
+			for _, t := range scmpTypes { // another message type over the same bytes
+				set(start, int(t))
+			}
+		}
+	}
+	return out
+}
+
 func runCodec(n int) {
 	rng := vt.Rand(18)
 	for i := 0; i < n; i++ {
@@ -689,7 +785,11 @@ func runCodec(n int) {
 		if i%3 != 0 {
 			continue
 		}
-		for _, m := range mutate(rng, pkt) {
+		muts := mutate(rng, pkt)
+		if i%6 == 0 || len(pkt) < 200 {
+			muts = append(muts, structural(pkt, decodeChain(pkt))...)
+		}
+		for _, m := range muts {
 			for _, l := range decodeChain(m) {
 				emitDec(l, "mutant")
 			}
